@@ -1079,7 +1079,49 @@ func (g *gen) idiom(d int, top bool) []stmtText {
 	e := func() string { return g.w(g.expr(kAny, d-1), pAssign) }
 	c := func() string { return g.condTest(d - 1).s }
 	cp := func() string { return g.w(g.condTest(d-1), pBitOr) }
-	switch r.Intn(47) {
+	switch r.Intn(51) {
+	case 47, 48: // else after an if / else-if chain whose LAST if has no else, with branches that stay statements (loops, try):
+		// the braces around the chain must be kept, else the outer else attaches to the innermost if
+		g.kindHit("idiom:dangling-else-after-chain")
+		st := func(k int) string {
+			switch r.Intn(4) {
+			case 0:
+				return "for(var " + g.fresh("i") + "=0;" + h() + "(" + fmt.Sprint(k) + "),false;);"
+			case 1:
+				return "try{" + h() + "(" + fmt.Sprint(k) + ")}catch(" + g.fresh("e") + "){}"
+			case 2:
+				return "while(" + h() + "(" + fmt.Sprint(k) + ")&&0);"
+			}
+			return "switch(" + h() + "(" + fmt.Sprint(k) + ")){}"
+		}
+		var chain string
+		switch r.Intn(4) {
+		case 0:
+			chain = "if(" + c() + ")" + st(1) + "else if(" + c() + ")" + st(2)
+		case 1:
+			chain = "if(" + c() + ")" + st(1) + "else if(" + c() + ")" + st(2) + "else if(" + c() + ")" + st(3)
+		case 2:
+			chain = "if(" + c() + ")" + st(1) + "else{if(" + c() + ")" + st(2) + "}"
+		default:
+			chain = "if(" + c() + "){" + st(1) + "}else for(;" + h() + "(4),false;)if(" + c() + ")" + st(2)
+		}
+		return one("if("+c()+"){"+chain+"}else "+st(9), true)
+	case 49, 50: // a var declared two blocks deep is hoisted; a lexical declaration in the block IN BETWEEN must not get the same
+		// short name, and another var of the function makes the hoist happen
+		g.kindHit("idiom:hoist-across-lexical-scope")
+		f, p := g.fresh("f"), g.fresh("p")
+		g.declare(&variable{name: f, k: kFn, decl: "fn", arity: 1})
+		it, a, z, cc := g.fresh("it"), g.fresh("a"), g.fresh("z"), g.fresh("c")
+		var body string
+		switch r.Intn(3) {
+		case 0:
+			body = "for(const " + it + " of " + p + "){if(" + it + ">1){var " + a + "=" + it + "*2," + z + "=1;" + h() + "(" + a + "," + z + ")}" + h() + "(" + it + ")}var " + cc + ";" + cc + "=5;return " + cc
+		case 1:
+			body = "{let " + it + "=" + p + ".length;{var " + a + "=" + it + "+1," + z + "=2;" + h() + "(" + a + "," + z + ")}" + h() + "(" + it + ")}var " + cc + "=7;return " + cc + "+" + a
+		default:
+			body = "try{throw " + p + "}catch(" + it + "){if(" + it + "){var " + a + "=" + it + "," + z + "=3;" + h() + "(" + a + "," + z + ")}" + h() + "(" + it + ")}var " + cc + ";" + cc + "=1;return " + cc
+		}
+		return []stmtText{{s: "function " + f + "(" + p + "){" + body + "}", fn: true}, {s: h() + "(" + f + "([1,2,3]))", semi: true}}
 	case 33, 34: // several var declarations in one function (hoisting) with a destructuring declarator after initialised ones:
 		// the pattern must not be moved in front of the initialisers it follows (K121)
 		a, b, z := g.fresh("v"), g.fresh("v"), g.fresh("v")
